@@ -163,3 +163,26 @@ Definition dispatched (e : dentry) : bool := is_removed e && negb (d_perr e) && 
 
 Definition report (e : dentry) (entries : list dentry) : option problem :=
   if dispatched e then check e entries else None.
+
+(** * From GitBranchFinder.Find's result to what the check reads.
+    The discovery.Entry the check sees is the entry Find returned; the model of Find ([Model.GitBranch.find]) carries
+    state, errors, kind, name, path and lines; what the PromQL parser says about the rule's expression (an input) is looked
+    up by the entry's identity. *)
+Record info := { i_syntax_err : bool; i_selectors : list selector; i_expr_line : Z }.
+
+Fixpoint lookup_info (u : N) (t : list (N * info)) : info :=
+  match t with
+  | [] => {| i_syntax_err := false; i_selectors := []; i_expr_line := 0 |}
+  | (k, v) :: r => if N.eqb k u then v else lookup_info u r
+  end.
+
+Definition to_dentry (t : list (N * info)) (e : entry) : dentry :=
+  let i := lookup_info (e_uid e) t in
+  {| d_state := e_state e; d_perr := e_perr e; d_rerr := e_rerr e; d_kind := e_kind e; d_name := e_name e;
+     d_path := e_path e; d_target := e_target e; d_syntax_err := i_syntax_err i; d_selectors := i_selectors i;
+     d_expr_line := i_expr_line i; d_first := e_first e; d_last := e_last e |}.
+
+(** `pint ci` = Find, then the check on every entry of the list Find returned *)
+Definition pipeline (t : list (N * info)) (glob : list entry) (cs : list change_in) : list (dentry * option problem) :=
+  let ds := map (to_dentry t) (find glob cs) in
+  map (fun d => (d, report d ds)) ds.
